@@ -2,6 +2,7 @@ package pbt
 
 import (
 	"fmt"
+	"strings"
 	"sync"
 )
 
@@ -45,7 +46,8 @@ func NewSched(enabled ...string) *Sched {
 func (s *Sched) Hook(name string, id int64) {
 	s.mu.Lock()
 	s.Hits[name]++
-	if s.off || !s.enabled[name] {
+	// "log:<message>" points are enabled as a family by the name "log"
+	if s.off || !(s.enabled[name] || (strings.HasPrefix(name, "log:") && s.enabled["log"])) {
 		s.mu.Unlock()
 		return
 	}
